@@ -124,3 +124,30 @@ func VerifReplacedPublisherIsCutOff() {
 	vnd.Cover(pa.source == nil && override && a.closed == 1, "replacement refused after the first publisher was closed")
 	vnd.Cover(pa.source != nil && pa.source != defs.Source(a), "publisher replaced")
 }
+
+// VerifPublishToPathWithAnotherSource: a path whose source is not 'publisher' — a redirect (which holds a
+// source object of its own) or a static source — refuses every publisher, whatever overridePublisher says,
+// and stays as it is.
+func VerifPublishToPathWithAnotherSource() {
+	b := &verifPublisher{}
+	redirect := vnd.Bool("redirect")
+	pa := &path{conf: &conf.Path{Source: "rtsp://example.org/x", OverridePublisher: vnd.Bool("overridePublisher")}, name: "p",
+		parent: verifC16Parent{}, readers: map[defs.Reader]struct{}{}}
+	var own defs.Source
+	if redirect {
+		pa.conf.Source = "redirect"
+		pa.conf.SourceRedirect = "rtsp://example.org/y"
+		own = &sourceRedirect{}
+		pa.source = own
+	}
+	res := make(chan defs.PathAddPublisherRes, 2)
+	panicked := vnd.Panics(func() {
+		pa.doAddPublisher(defs.PathAddPublisherReq{Author: b, Res: res, AccessRequest: defs.PathAccessRequest{Name: "p", Publish: true}})
+	})
+	vnd.Assert(!panicked, "a publish request never crashes the path")
+	vnd.Assert(len(res) == 1, "exactly one response to an add-publisher request")
+	r := <-res
+	vnd.Assert(r.Err != nil && r.SubStream == nil, "a path with another source refuses every publisher")
+	vnd.Assert(pa.source == own && b.closed == 0 && pa.stream == nil, "the path keeps its own source")
+	vnd.Cover(redirect, "redirect path")
+}
